@@ -422,6 +422,12 @@ def check_hkdf_small(ck_ob, mod, label, thorough=False):
                 rv = ex.subst(p, p.end[1]).const() if (p.end[1] is not None and not is_word(p.end[1])) else None
                 if why is None and (rv is None or (rv & 0xFFFFFFFF) != (rc & 0xFFFFFFFF)):
                     why = "returns %s, expected %d" % (rv, rc)
+                if why is None and rc != 0:
+                    # a refused call leaves the object exhausted: counter 0 (so every later call is refused too) and the position the bytes handed out imply
+                    if p.lfmem.get((ST, CNT, 1)) not in (Lf.c(0), None if c0 == 0 else Lf.c(0)) and not (c0 == 0 and p.lfmem.get((ST, CNT, 1)) is None):
+                        why = "after the refused call the block counter is %s, not 0: a later call generates key material beyond 8160 bytes" % p.lfmem.get((ST, CNT, 1))
+                    elif p.lfmem.get((ST, POSN, 1)) not in (Lf.c(posn),) and not (posn == pz and p.lfmem.get((ST, POSN, 1)) is None):
+                        why = "after the refused call the buffer position is %s, expected %d: a later call hands out bytes of the last block again" % (p.lfmem.get((ST, POSN, 1)), posn)
                 if why is None and rc == 0:
                     if p.lfmem.get((ST, CNT, 1)) != Lf.c(c):
                         why = "block counter becomes %s, expected %d" % (p.lfmem.get((ST, CNT, 1)), c)
